@@ -172,8 +172,10 @@ class Executor(ResolutionContext):
                 return self.complete_value(
                     field_definition.type, nodes, path, info, res
                 )
-            except CoercionError as err:
-                # Invalid directive arguments in the sub selection.
+            except (CoercionError, ResolverError) as err:
+                # Invalid directive arguments in the sub selection or a
+                # resolver error raised lazily while the resolved value is
+                # consumed (e.g. by a generator). The field has already ended.
                 self.add_error(err, path, node)
                 return None
 
